@@ -476,7 +476,7 @@ fn fixtures() -> Vec<(&'static str, &'static str, &'static str)> {
 
 fn ops_for(run: &Run) -> Vec<OpSpec> {
     let mut ops = vec![];
-    let thorough = !run.quick();
+    let _ = run;
     // --- signing, every writable format
     for (_label, fmt, file) in fixtures() {
         ops.push(OpSpec::new("sign", fmt, file, ""));
@@ -494,7 +494,7 @@ fn ops_for(run: &Run) -> Vec<OpSpec> {
     ops.push(OpSpec::new("sign-ingredient", "image/jpeg", "no_manifest.jpg", "image/jpeg|CA.jpg"));
     ops.push(OpSpec::new("sign-ingredient", "image/png", "libpng-test.png", "image/jpeg|no_manifest.jpg"));
     ops.push(OpSpec::new("sign-ingredient", "image/webp", "test.webp", "image/jpeg|CACA.jpg"));
-    if thorough {
+    {
         ops.push(OpSpec::new("sign-ingredient", "video/mp4", "video1_no_manifest.mp4", "video/mp4|video1.mp4"));
         ops.push(OpSpec::new("sign-thumb", "image/webp", "test.webp", ""));
         ops.push(OpSpec::new("sign-edit", "video/mp4", "video1.mp4", ""));
@@ -511,7 +511,7 @@ fn ops_for(run: &Run) -> Vec<OpSpec> {
         ops.push(OpSpec::new("read", "image/jpeg", f, ""));
     }
     ops.push(OpSpec::new("read", "video/mp4", "video1.mp4", ""));
-    if thorough {
+    {
         for f in ["CIE-sig-CA.jpg", "E-sig-CA.jpg", "CACAE-uri-CA.jpg", "adobe-20220124-E-clm-CAICAI.jpg", "ocsp.jpg", "update_manifest.jpg", "legacy_ingredient_hash.jpg"] {
             ops.push(OpSpec::new("read", "image/jpeg", f, ""));
         }
@@ -625,7 +625,7 @@ fn main() {
             if dry.get(op).is_none() {
                 continue;
             }
-            for _ in 0..24 {
+            for _ in 0..300 {
                 let spins = match rng.below(4) {
                     0 => rng.below(50),
                     1 => rng.below(2_000),
